@@ -279,8 +279,8 @@ def c11(ctx):
 def c13(ctx):
     prog = ctx.prog("dev")
     E, B, G = "histogram::bins::Edges", "histogram::bins::Bins", "histogram::grid::Grid"
-    n = RH.rule_field_own(ctx, prog, E, "edges", ["Edges<A> as std::convert::From<std::vec::Vec<A>>>::from"],
-                          constructors=["Edges<A> as std::convert::From<std::vec::Vec<A>>>::from"])
+    est = RH.edges_establishers(prog) or ["Edges<A> as std::convert::From<std::vec::Vec<A>>>::from"]
+    n = RH.rule_field_own(ctx, prog, E, "edges", est, constructors=est)
     n += RH.rule_field_own(ctx, prog, B, "edges", ["Bins::<A>::new"], constructors=["Bins::<A>::new"])
     n += RH.rule_field_own(ctx, prog, G, "projections", ["Grid<A> as std::convert::From<std::vec::Vec<histogram::bins::Bins<A>>>>::from"],
                            constructors=["Grid<A> as std::convert::From<std::vec::Vec<histogram::bins::Bins<A>>>>::from"])
